@@ -22,6 +22,9 @@ fn main() {
         "partition" => pure::partition(&args),
         "partition-big" => pure::partition_big(&args),
         "pathfs" => pure::pathfs(&args),
+        "wire-enc" => pure::wire_enc(&args),
+        "wire-dec" => pure::wire_dec(&args),
+        "wire-sender" => pure::wire_sender(&args),
         "replay-sender" => sender_drv::replay_sender(&args),
         "sessions" => recv_drv::sessions(&args),
         "replay-receiver" => recv_drv::replay_receiver(&args),
